@@ -326,8 +326,9 @@ func (c *Ctx) ruleU2(rule string) {
 			}
 			switch t := in.(type) {
 			case *ssa.Store:
-				if c.Prop != "C19" {
+				if c.Prop != "C19" && c.Prop != "C15" {
 					// scratch memory on a node need not change what a version means; it is a conflicting access
+					// (C19) and a value of one execution visible to another (C15)
 					break
 				}
 				if ia, isIA := t.Addr.(*ssa.IndexAddr); isIA {
@@ -338,7 +339,7 @@ func (c *Ctx) ruleU2(rule string) {
 					}
 				}
 			case *ssa.MapUpdate:
-				if c.Prop != "C19" {
+				if c.Prop != "C19" && c.Prop != "C15" {
 					break
 				}
 				if nf := nodeField(t.Map); nf != "" {
@@ -848,4 +849,46 @@ func (c *Ctx) astTypes() map[string]bool {
 	}
 	c.extra["astTypes"] = out
 	return out
+}
+
+// ruleContainersOwnTheirMemory: the maps and the list of a rule container belong to that container. No
+// store into a KnowledgeContext field takes its value from a package-level variable: a map shared by
+// "fresh" containers is filled by one build and read by every other (the builders fill the index of the
+// container they were given in place).
+func (c *Ctx) ruleContainersOwnTheirMemory(rule string) {
+	n := 0
+	for _, f := range c.AllFns {
+		if f.Pkg == nil || !strings.HasPrefix(f.Pkg.Pkg.Path(), modPath) || f.Pkg.Pkg.Path() == pParser {
+			continue
+		}
+		x := c.Index(f)
+		k := 0
+		eachInstr(f, func(in ssa.Instruction) {
+			st, ok := in.(*ssa.Store)
+			if !ok {
+				return
+			}
+			fa, ok := st.Addr.(*ssa.FieldAddr)
+			if !ok || structName(fa.X.Type()) != "KnowledgeContext" {
+				return
+			}
+			n++
+			k++
+			shared := ""
+			for _, pv := range x.PossibleValues(st.Val) {
+				if pv.V == nil {
+					continue
+				}
+				if ld, isLd := x.Origin(pv.V).(*ssa.UnOp); isLd && ld.Op == token.MUL {
+					if g, isG := ld.X.(*ssa.Global); isG {
+						shared = g.Name()
+					}
+				}
+			}
+			c.Check(rule, fmt.Sprintf("%s#%s%d", fnName(f), fieldOf(fa).Name(), k), shared == "", in.Pos(), "field %s of a rule container is given the package-level variable %s: every container made this way shares that memory", fieldOf(fa).Name(), shared)
+		})
+	}
+	if n == 0 {
+		c.Lost(rule, "stores into KnowledgeContext fields")
+	}
 }
